@@ -122,8 +122,29 @@ def run(rep):
                     and (len(fields) == 2 or (len(fields) == 3 and fields[2][0] == "\n" and fields[2][1] is None)) and not fields[0][3] and not fields[1][3]:
                 if pfold.is_lit(a_[2][1]) and isinstance(a_[2][1][1], str):
                     return a_[2][1][1], a_[2][2], fields[1][2] or ""
+        # the same text as an f-string:  f"{KEY:<14} {value}\n"  /  f"{KEY:<14} {value:spec}\n"
+        if pq.call_named(a_, "fstr") and len(a_[2]) in (3, 4):
+            parts = list(a_[2])
+
+            def unfmt(x):
+                if pq.call_named(x, "fmt") and len(x[2]) == 2:
+                    sp_ = x[2][1]
+                    if pfold.is_lit(sp_):
+                        return x[2][0], str(sp_[1])
+                    if sp_[0] == 'sym':
+                        return x[2][0], ast.literal_eval(sp_[1])
+                return x, ""
+            k_, kspec = unfmt(parts[0])
+            sep = parts[1]
+            v_, vspec = unfmt(parts[2])
+            tail_ok = len(parts) == 3 or (pfold.is_lit(parts[3]) and parts[3][1] == "\n") or parts[3] == ('sym', repr("\n"))
+            sep_txt = sep[1] if pfold.is_lit(sep) else (ast.literal_eval(sep[1]) if sep[0] == 'sym' and sep[1][:1] in "'\"" else None)
+            if pfold.is_lit(k_) and isinstance(k_[1], str) and isinstance(sep_txt, str) and sep_txt != "" and sep_txt.strip(" ") == "" and tail_ok and \
+                    (kspec == "" or re.fullmatch(r"<\d+", kspec)):
+                return k_[1], v_, vspec
         return None
     scen_lines = []          # per completing path: list of (KEY, value expr, spec, effect conditions, line number)
+    unread_lines = 0
     for p_ in wpaths:
         ls_ = []
         for e in p_.effects:
@@ -131,6 +152,7 @@ def run(rep):
                 hl = header_line(e.val[2][1])
                 if hl is None:
                     rep.undecided("R13.a", rel, "Grid.save", "header line form", f"written text outside the `KEY value` vocabulary: {_show(e.val[2][1])[:80]}", line=e.line)
+                    unread_lines += 1
                     continue
                 ls_.append((hl[0], hl[1], hl[2], e.conds, e.line))
         scen_lines.append((p_, ls_))
@@ -174,7 +196,11 @@ def run(rep):
             miss = needs[k] - set(written)
             ok = not miss
             det = f"header key(s) {sorted(miss)} not written by Grid.save"
-        rep.check(ok, "R13.a", rel, "Grid.save", f"header provides constructor argument '{k}'", det, line=save.lineno)
+        if not ok and unread_lines:
+            # some written lines were not understood: a key that seems missing may be on one of them
+            rep.undecided("R13.a", rel, "Grid.save", f"header provides constructor argument '{k}'", det + f" ({unread_lines} written line(s) could not be read)", line=save.lineno)
+        else:
+            rep.check(ok, "R13.a", rel, "Grid.save", f"header provides constructor argument '{k}'", det, line=save.lineno)
     # value bound to the right attribute
     expect_attr = {"nbits": None, "pixeltype": None, "byteorder": None, "name": "self.name", "comment": None, "nodata": "self.nodata"}
     for k, (vtxt, fmt, line) in sorted(written.items()):
